@@ -397,6 +397,7 @@ func kBuildContainer(extraMounts func(b *mount.Builder), cred container.CredGene
 		WithBind(filepath.Dir(probePath), "probe", true).
 		WithTmpfs("w", "").
 		WithTmpfs("tmp", "").
+		WithBind("/dev/null", "dev/null", false).
 		WithProc()
 	if extraMounts != nil {
 		extraMounts(mb)
